@@ -523,6 +523,7 @@ func (s *server) ReadRows(req *btpb.ReadRowsRequest, stream btpb.Bigtable_ReadRo
 		srs = mergeRowRanges(req.GetRows().GetRowKeys(), req.GetRows().GetRowRanges())
 	}
 
+	verifYield("r.lock")
 	defer tbl.read()
 	tbl.mu.RLock()
 	defer tbl.mu.RUnlock()
@@ -535,6 +536,7 @@ func (s *server) ReadRows(req *btpb.ReadRowsRequest, stream btpb.Bigtable_ReadRo
 	sendResponse := func() error {
 		// Reverse the lock while streaming the row out.
 		tbl.mu.RUnlock()
+		verifYield("r.send")
 		defer tbl.mu.RLock()
 		return stream.Send(&btpb.ReadRowsResponse{Chunks: cb.chunks})
 	}
@@ -988,11 +990,13 @@ func (s *server) MutateRow(ctx context.Context, req *btpb.MutateRowRequest) (*bt
 		return nil, status.Errorf(codes.NotFound, "table %q not found", req.TableName)
 	}
 
+	verifYield("w.lock")
 	defer tbl.write()
 	tbl.mu.Lock()
 	defer tbl.mu.Unlock()
 	now := s.clock()
 	r := tbl.getOrCreateRow(req.RowKey)
+	verifYield("w.mid")
 
 	if err := applyMutations(tbl, r, req.Mutations, now); err != nil {
 		return nil, err
@@ -1010,6 +1014,7 @@ func (s *server) MutateRows(req *btpb.MutateRowsRequest, stream btpb.Bigtable_Mu
 	}
 	res := &btpb.MutateRowsResponse{Entries: make([]*btpb.MutateRowsResponse_Entry, len(req.Entries))}
 
+	verifYield("w.lock")
 	defer tbl.write()
 	tbl.mu.Lock()
 	defer tbl.mu.Unlock()
@@ -1017,6 +1022,7 @@ func (s *server) MutateRows(req *btpb.MutateRowsRequest, stream btpb.Bigtable_Mu
 
 	for i, entry := range req.Entries {
 		r := tbl.getOrCreateRow(entry.RowKey)
+		verifYield("w.mid")
 
 		code, msg := int32(codes.OK), ""
 		if err := applyMutations(tbl, r, entry.Mutations, now); err != nil {
@@ -1046,11 +1052,13 @@ func (s *server) CheckAndMutateRow(ctx context.Context, req *btpb.CheckAndMutate
 		return nil, err
 	}
 
+	verifYield("w.lock")
 	defer tbl.write()
 	tbl.mu.Lock()
 	defer tbl.mu.Unlock()
 	now := s.clock()
 	r := tbl.getOrCreateRow(req.RowKey)
+	verifYield("w.mid")
 
 	// Figure out which mutation to apply.
 	whichMut := false
@@ -1248,11 +1256,13 @@ func (s *server) ReadModifyWriteRow(ctx context.Context, req *btpb.ReadModifyWri
 		return nil, status.Errorf(codes.NotFound, "table %q not found", req.TableName)
 	}
 
+	verifYield("w.lock")
 	defer tbl.write()
 	tbl.mu.Lock()
 	defer tbl.mu.Unlock()
 	now := s.clock()
 	r := tbl.getOrCreateRow(req.RowKey)
+	verifYield("w.mid")
 	resultRow := &btpb.Row{Key: req.RowKey} // copy of updated cells
 	cols := tbl.cols()
 
@@ -1509,6 +1519,7 @@ func (t *table) gc(now bigtable.Timestamp, done <-chan struct{}, force bool) {
 
 		// Reverse lock; check if we should exit
 		t.mu.Unlock()
+		verifYield("gc.handover")
 		select {
 		case <-done:
 			t.mu.Lock()
